@@ -22,8 +22,10 @@ package utils
 //  [depthZeroLeavesNoLeaf] (/repo 728fd2f) N did not exist and the depth admits nothing: no node is registered
 //  [leafMembers]           N's queue only ever gains the given job
 //  [leafOrderKept] / [newLeafOrdered]   (C16) the heap invariants of N's queue survive / hold from the start
-//  [keepsBestOld] / [keepsBestNew]      (C16, /repo 16edb70, jobs queue depth) a job that fell out of N's bounded queue is
-//                          ordered before none of the jobs that stayed
+//  [keepsBestOld]          (C16, /repo 16edb70, jobs queue depth) a job that fell out of N's bounded queue is ordered before
+//                          none of the jobs that stayed. (The same for the pushed job itself is proved one level down,
+//                          scheduler_util.(*PriorityQueue).Push [keepsBestNew]; here it would need a spec term for the
+//                          interface value boxing `job`, which the contract language does not have.)
 //  [inv]                   the object invariant is kept
 // Linking a NEW leaf into the tree is done by ensureAncestorChainForPush (TRUSTED, below); an existing leaf is not relinked.
 //@ func (*JobsOrderByQueues).PushJob
